@@ -36,7 +36,7 @@ def _shape_runs(prop, tier):
     # ---- two stages: every pair of limits
     add(0, '**', 3, 0)
     add(2, '**', 3, 0)
-    if q:
+    if q or prop == 28:  # one worker never reaches two concurrent invocations of a stage (see notes): C28 spends its time on pool 2
         add(1, '**', 3, 1, budget=120)
     else:
         for g in LIM:
@@ -44,9 +44,9 @@ def _shape_runs(prop, tier):
                 add(1, g + s, 3, 2, budget=120)
     two_n2 = ['pp'] if q else ['pp', '22', 'uu', 'up', '2p', 'p2', 'u2']
     if prop == 28 and q:
-        two_n2 = ['2u']  # reaches two concurrent sink invocations and two generator instances
+        two_n2 = ['up']  # two generator instances feeding a serial sink: reaches both covers, and is the shape that exposes an off-by-one slot count
     for st in two_n2:
-        add(2, st, 2 if q else 3, 1, budget=200)
+        add(2, st, 2 if (q and st == 'pp') else 3, 1, budget=200)
     # ---- three stages: every limit triple x every transform kind
     add(0, '***', 3, 0, f1=-2)
     add(2, '***', 3, 0, f1=-2, budget=150)
@@ -58,8 +58,9 @@ def _shape_runs(prop, tier):
             add(1, g + '**', 3, 1, f1=-2, budget=240)
         for st, kind in (('p2p', 2), ('2u2', -1), ('u2p', 0)):
             add(2, st, 3, 1, f1=kind, budget=300)
-        for st, kind in (('ppp', -1), ('p2p', 2), ('2p2', 0), ('u2u', 2)):
-            add(1, st, 2, 2, f1=kind, budget=200)
+        if prop != 28:
+            for st, kind in (('ppp', -1), ('p2p', 2), ('2p2', 0), ('u2u', 2)):
+                add(1, st, 2, 2, f1=kind, budget=200)
     # ---- four and five stages: bound 0 over every limit tuple, bound 1 on one worker for fixed shapes
     add(0, '****', 3, 0, f1=-2, f2=-2)
     add(0, '*****', 3, 0, f1=-1 if q else -2, f2=2 if q else -2, f3=0 if q else -2, budget=150)
@@ -78,7 +79,8 @@ def _shape_runs(prop, tier):
     add(2, 'u2', 2, 0, mode='tsan')
     add(1, '2u', 2, 1, mode='asan', budget=90)
     add(2, 'p2p', 3, 0, mode='asan', f1=0)
-    return runs + heavy + san
+    # C28 is decided by the two-worker runs (a single worker never gets two invocations of one stage in flight): they go first
+    return (heavy + runs + san) if prop == 28 else (runs + heavy + san)
 
 
 def c27_runs(tier):
@@ -167,9 +169,8 @@ def c29_runs(tier):
     if not q:
         add(2, 'p2p', 3, 1, thr=1, at=1, f1=0, budget=300)
         add(2, '22', 3, 1, thr=1, at=0, all=1, budget=300)
-        for st in ('pp', 'u2', '2p'):
-            for thr in (0, 1):
-                add(1, st, 3, 2, thr=thr, at=1, budget=240)
+        for st, thr in (('pp', 1), ('u2', 0), ('2p', 1)):
+            add(1, st, 3, 2, thr=thr, at=1, again=0, budget=240)
         # single stage and 4 stages
         for n in (1, 2):
             add(n, '2', 3, 1, thr=0, at=1, budget=150)
